@@ -8,6 +8,10 @@ import KinModel.Lemmas.C13Stream
 import KinModel.Lemmas.C13Body
 import KinModel.Lemmas.C13Params
 import KinModel.Lemmas.C13Media
+import KinModel.Gen.BodyDecoders
+import KinModel.Gen.BodyEncoders
+import KinModel.Lemmas.C13Flow
+import KinModel.C13Iter
 namespace KinModel.C13
 open Stream
 
@@ -29,23 +33,30 @@ theorem body_first_read_after (c : Cfg) (outcome : Bytes → BodyOutcome) (r : R
     readAll (validateStream c outcome r).1 = expectedAfter c outcome r data := by
   simp [readAll, (validateStream_coherent c outcome r data h).1]
 
-/-- **body_readable_after (and rewindable), partial.**  Full statement: …and GetBody rewinds to the same bytes
-(`Readable`).  It fails where re-encoding fails (`rewriteFails`: class NoBodyEncoder, witness below); everywhere else: -/
-theorem body_readable_after_partial (c : Cfg) (outcome : Bytes → BodyOutcome) (r : Req) (data : Bytes)
-    (h : Coherent r data) (hnf : outcome data ≠ .rewriteFails) :
+/-- **body_readable_after (and rewindable).**  …and GetBody rewinds to the same bytes (`Readable`) — after every
+outcome, a failed re-encoding included.  Full strength: the exclusion of the rewrite-failure class is gone with the
+repair of F-C13-8's second face (commit ac404f7). -/
+theorem body_readable_after (c : Cfg) (outcome : Bytes → BodyOutcome) (r : Req) (data : Bytes)
+    (h : Coherent r data) :
     Readable (validateStream c outcome r).1 (expectedAfter c outcome r data) := by
   obtain ⟨hb, hg, _⟩ := validateStream_coherent c outcome r data h
-  exact ⟨by simp [readAll, hb], hg hnf⟩
+  exact ⟨by simp [readAll, hb], hg⟩
 
-/-- F-C13-8, second face: when the rewrite fails for want of an encoder, the request is rejected AND a GetBody that
-    validation itself installed (server-side request) now rewinds to nothing: the body can be read once, a second
-    validation (or any retry) finds it empty -/
-theorem witness_rewrite_failure_breaks_getBody :
+/-- regression (F-C13-8, second face, repaired by ac404f7): a server-side request (no GetBody) whose re-encoding
+    fails is rejected, and the GetBody that validation installed still rewinds to the whole body: a second validation
+    reads the same bytes.  (Before the repair: `getBody = .ok []`, the second validation read nothing.) -/
+theorem regression_rewrite_failure_keeps_getBody :
     let r : Req := { body := some [1, 2], getBody := .none, contentLength := 2 }
     let c : Cfg := { hasAuthFunc := true, reqs := [], hasBodySpec := true, required := true, multi := false, paramsOK := true }
     let r1 := (validateStream c (fun _ => .rewriteFails) r).1
-    readAll r1 = [1, 2] ∧ r1.getBody = .ok [] ∧
-    readAll (validateStream c (fun _ => .rewriteFails) r1).1 = [] := by decide
+    (validateStream c (fun _ => .rewriteFails) r).2 = false ∧
+    readAll r1 = [1, 2] ∧ r1.getBody = .ok [1, 2] ∧ Readable r1 [1, 2] ∧
+    readAll (validateStream c (fun _ => .rewriteFails) r1).1 = [1, 2] := by
+  refine ⟨by decide, by decide, by decide, ⟨by decide, ?_⟩, by decide⟩
+  intro b hb
+  have : (validateStream { hasAuthFunc := true, reqs := [], hasBodySpec := true, required := true, multi := false, paramsOK := true }
+      (fun _ => BodyOutcome.rewriteFails) { body := some [1, 2], getBody := .none, contentLength := 2 }).1.getBody = .ok [1, 2] := by decide
+  rw [this] at hb; cases hb; rfl
 
 /-- The only way the readable bytes differ from the received ones is the default rewrite of an accepted body. -/
 theorem body_changes_only_by_rewrite (c : Cfg) (outcome : Bytes → BodyOutcome) (r : Req) (data : Bytes) :
@@ -64,11 +75,11 @@ theorem body_changes_only_by_rewrite (c : Cfg) (outcome : Bytes → BodyOutcome)
       | rewrite nd => exact Or.inr ⟨nd, rfl, rfl⟩
 
 /-- **skip_defaults_identity (stream).** When nothing is rewritten (default-setting skipped: the value layer never
-answers `rewrite` or `rewriteFails`), the body afterwards is byte-for-byte the one received, and rewindable. -/
+answers `rewrite`), the body afterwards is byte-for-byte the one received, and rewindable. -/
 theorem skip_defaults_stream_identity (c : Cfg) (outcome : Bytes → BodyOutcome) (r : Req) (data : Bytes)
-    (h : Coherent r data) (hno : ∀ d nd, outcome d ≠ .rewrite nd) (hnf : ∀ d, outcome d ≠ .rewriteFails) :
+    (h : Coherent r data) (hno : ∀ d nd, outcome d ≠ .rewrite nd) :
     Readable (validateStream c outcome r).1 data := by
-  have hr := body_readable_after_partial c outcome r data h (hnf data)
+  have hr := body_readable_after c outcome r data h
   rcases body_changes_only_by_rewrite c outcome r data with he | ⟨nd, ho, _⟩
   · rwa [he] at hr
   · exact absurd ho (hno data nd)
@@ -80,12 +91,34 @@ theorem contentLength_consistent (c : Cfg) (outcome : Bytes → BodyOutcome) (r 
   obtain ⟨hb, _, hl⟩ := validateStream_coherent c outcome r data h
   rw [hl hcl]; simp [readAll, hb]
 
-/-- A second validation finds a coherent request again (so all of the above holds for it as well) — outside the
-rewrite-failure class. -/
-theorem second_validation_coherent_partial (c : Cfg) (outcome : Bytes → BodyOutcome) (r : Req) (data : Bytes)
-    (h : Coherent r data) (hnf : outcome data ≠ .rewriteFails) :
+/-- A second validation finds a coherent request again (so all of the above holds for it as well, and for every
+further one).  Full strength. -/
+theorem second_validation_coherent (c : Cfg) (outcome : Bytes → BodyOutcome) (r : Req) (data : Bytes)
+    (h : Coherent r data) :
     Coherent (validateStream c outcome r).1 (expectedAfter c outcome r data) :=
-  ⟨(validateStream_coherent c outcome r data h).1, (validateStream_coherent c outcome r data h).2.1 hnf⟩
+  ⟨(validateStream_coherent c outcome r data h).1, (validateStream_coherent c outcome r data h).2.1⟩
+
+/-- **A second validation leaves the stream exactly as the first one left it** — Body, GetBody, ContentLength —
+whatever the verdicts (security failing or not, body rejected or not, re-encoding possible or not), provided the value
+layer does not turn the rewritten body into yet other bytes (Part 2: it does not, outside `BranchShift`).  Full
+strength on the stream side. -/
+theorem stream_second_validation_changes_nothing (c : Cfg) (outcome : Bytes → BodyOutcome) (r : Req) (data : Bytes)
+    (h : Coherent r data) (H : ∀ nd nd', outcome data = .rewrite nd → outcome nd = .rewrite nd' → nd' = nd) :
+    (validateStream c outcome (validateStream c outcome r).1).1 = (validateStream c outcome r).1 :=
+  validateStream_idem c outcome r data h H
+
+/-- **n validations = 1 validation (stream).**  However often the request is validated again, the stream stays as
+the first validation left it, and every validation returns the first one's verdict. -/
+theorem stream_n_validations (c : Cfg) (outcome : Bytes → BodyOutcome) (r : Req) (data : Bytes)
+    (h : Coherent r data)
+    (H : ∀ nd, outcome data = .rewrite nd → nd ≠ [] ∧ (outcome nd = .accept ∨ outcome nd = .rewrite nd)) (n : Nat) :
+    iterN (fun x => (validateStream c outcome x).1) (n + 1) r = (validateStream c outcome r).1 ∧
+    (validateStream c outcome (iterN (fun x => (validateStream c outcome x).1) (n + 1) r)).2 = (validateStream c outcome r).2 := by
+  have hid : (validateStream c outcome (validateStream c outcome r).1).1 = (validateStream c outcome r).1 :=
+    validateStream_idem c outcome r data h (fun nd nd' h1 h2 => by
+      rcases (H nd h1).2 with h3 | h3 <;> rw [h3] at h2 <;> cases h2; rfl)
+  have e := iterN_of_idem (fun x => (validateStream c outcome x).1) r hid n
+  exact ⟨e, by rw [e]; exact validateStream_idem_verdict c outcome r data h H⟩
 
 /-- A request without a body is not given one by the security phase. -/
 theorem sec_no_body_untouched (f : Bool) (r : Req) (qs : List (List Scheme)) (h : r.body = none) :
@@ -129,9 +162,9 @@ theorem null_never_invented (c : Ctx) (s : S) (v v' : J) (h : visit c s v = some
 
 /-- **defaults_only_absent (one object level, exact).** After an accepted object visit the member under a key that
 has no property schema is what it was; under a key with a property schema it is what that schema's own visit makes
-of: the default if the slot was empty and the property has an applicable default, the received member otherwise.
-Nothing else changes.  (`afterInject`, `slotEmpty`, `dfltFor` are the three definitions that say "empty",
-"applicable": absent — or, in the code's reading, null — and not read-only.) -/
+of: the default if the key was ABSENT and the property has an applicable default, the received member otherwise
+(an explicit null included).  Nothing else changes.  (`afterInject`, `slotEmpty`, `dfltFor` are the three
+definitions that say "absent" and "applicable": not read-only, not a null default.) -/
 theorem defaults_only_absent (c : Ctx) (a : Attr) (req : List String) (props : List (String × S)) (addl : Bool)
     (hn : keysNodup (props.map (·.1)) = true) (kvs kvs' : List (String × J))
     (h : visit c (.obj a req props addl) (.obj kvs) = some (.obj kvs')) (k : String) :
@@ -141,44 +174,60 @@ theorem defaults_only_absent (c : Ctx) (a : Attr) (req : List String) (props : L
        | none => Body.lookup k kvs) :=
   visit_obj_member c a req props addl hn kvs kvs' h k
 
-/-- A member that is present and not null is never replaced by a default. -/
-theorem present_member_not_defaulted (c : Ctx) (a : Attr) (m : J) (h : m.isNull = false) :
-    afterInject c a (some m) = some m := by
-  cases m <;> simp_all [afterInject, slotEmpty, J.isNull]
+/-- **A member that is present is never replaced by a default** — whatever its value, an explicit null included.
+Full strength: the hypothesis "not null" is gone with the repair of finding #24 (commit c740938). -/
+theorem present_member_not_defaulted (c : Ctx) (a : Attr) (m : J) : afterInject c a (some m) = some m := by
+  simp [afterInject, slotEmpty]
 
-/-- Under the property's reading of "absent" (the spec context) an explicit null is not replaced either … -/
-theorem explicit_null_kept_by_spec (c : Ctx) (a : Attr) : afterInject (specCtx c) a (some .null) = some .null := by
-  simp [afterInject, slotEmpty, specCtx]
+/-- An absent member receives the applicable default of its property, and only that. -/
+theorem absent_member_defaulted (c : Ctx) (a : Attr) : afterInject c a none = dfltFor c a := by
+  unfold afterInject slotEmpty
+  cases dfltFor c a <;> rfl
 
-/-- … but in the code it is (finding #24): full-strength statement `afterInject c a (some m) = some m` for every
-present member `m` fails exactly for `m = null` with an applicable default. -/
-theorem witness_null_replaced :
+/-- **The default loop = the property's one-shot reading.**  What visitJSONObject's loop over the sorted property
+names leaves behind is the received members, in their order and unchanged, followed by exactly one new member for each
+property that is absent and has an applicable default.  Full strength. -/
+theorem object_defaults_are_the_absent_ones (c : Ctx) (props : List (String × S)) (kvs : List (String × J))
+    (hn : keysNodup (props.map (·.1)) = true) : injectDefaults c props kvs = kvs ++ absentDefaults c props kvs :=
+  injectDefaults_eq_append c props kvs hn
+
+/-- **defaults_only_absent (model = spec), full strength.**  The code's forwarding `visit c` is the property's
+`specVisit c` (one new member per ABSENT property with a default, nothing else touched; the matched branch's
+forwarding for anyOf/oneOf, the chained one for allOf) — on every value, at any depth, through arrays and
+compositions.  The class `NullReplaced` (finding #24 / F-C13-1) is repaired (commit c740938) and deleted. -/
+theorem defaults_only_absent_model_eq_spec (c : Ctx) (s : S) (hw : wf s = true) (v : J) :
+    visit c s v = specVisit c s v :=
+  visit_eq_spec c s hw v
+
+/-- regression (finding #24 / F-C13-1, repaired by c740938): `{"a":null}` against `a: string, nullable, default "d"` is
+    forwarded as it is — model and spec agree (before the repair the model forwarded `{"a":"d"}`) … -/
+theorem regression_null_kept :
     let s : S := .obj {} [] [("a", .leaf { nullable := true, dflt := some (.str "d") } .string)] true
     let v : J := .obj [("a", .null)]
-    hasNullProp v = true ∧
-    visit {} s v = some (.obj [("a", .str "d")]) ∧ visit (specCtx {}) s v = some v := by
-  refine ⟨by decide, by rfl, by rfl⟩
+    visit {} s v = some v ∧ specVisit {} s v = some v ∧ visit {} s (.obj []) = some (.obj [("a", .str "d")]) := by
+  refine ⟨by rfl, by rfl, by rfl⟩
 
-/-- **defaults_only_absent_partial (model = spec).**  Full statement: the code's forwarding `visit c` is the
-property's `visit (specCtx c)` (defaults for ABSENT properties only) on every value.  It fails on the pinned code
-(`witness_null_replaced`, finding #24); it holds outside the class `NullReplaced` = "the received value has an
-explicit null member" (for schemas whose defaults have none either) — at any depth, through arrays and
-compositions. -/
-theorem defaults_only_absent_partial (c : Ctx) (s : S) (hc : cleanDefaults s = true) (v : J)
-    (hn : hasNullProp v = false) : visit c s v = visit (specCtx c) s v :=
-  ((visit_agree c s hc) v hn).1.symm
-
-/-- … and the forwarded value has no explicit null member either (so the statement applies to it again). -/
-theorem no_null_member_introduced (c : Ctx) (s : S) (hc : cleanDefaults s = true) (v v' : J)
-    (hn : hasNullProp v = false) (h : visit c s v = some v') : hasNullProp v' = false :=
-  ((visit_agree c s hc) v hn).2 v' h
+/-- … and against a NON-nullable `a: integer, default 1` it is rejected ("Value is not nullable"): the member is
+    present, so it is validated as it was sent, not papered over by the default — model and spec agree. -/
+theorem regression_null_not_nullable_rejected :
+    let s : S := .obj {} [] [("a", .leaf { dflt := some (.num 1) } .number)] true
+    visit {} s (.obj [("a", .null)]) = none ∧ specVisit {} s (.obj [("a", .null)]) = none ∧
+    visit {} s (.obj []) = some (.obj [("a", .num 1)]) := by
+  refine ⟨by rfl, by rfl, by rfl⟩
 
 /-- **defaults_applied.** After an accepted object visit with default-setting on, no property with an applicable
 default is left absent. -/
 theorem defaults_applied (c : Ctx) (hc : c.setDefaults = true) (a : Attr) (req props addl) (kvs : List (String × J)) (v' : J)
     (h : visit c (.obj a req props addl) (.obj kvs) = some v') :
-    ∃ kvs', v' = .obj kvs' ∧ ∀ p ∈ props, slotEmpty c (Body.lookup p.1 kvs') = true → dfltFor c p.2.attr = none :=
+    ∃ kvs', v' = .obj kvs' ∧ ∀ p ∈ props, slotEmpty (Body.lookup p.1 kvs') = true → dfltFor c p.2.attr = none :=
   visit_obj_settled c hc a req props addl kvs v' h
+
+/-- **The body is re-encoded only for a reason … almost.**  If the `DefaultsSet` callback ran nowhere during an accepted
+visit (`touched = false`), the forwarded value is the received one.  The converse fails (class `ReencodedUnchanged`,
+F-C13-11, witness in Part 4): the callback also runs for a default written into a discarded candidate's copy. -/
+theorem callback_not_run_value_unchanged (c : Ctx) (s : S) (hw : wf s = true) (v v' : J)
+    (h : visit c s v = some v') (ht : touched c s v = false) : v' = v :=
+  untouched_unchanged c s hw v v' h ht
 
 /-- **defaults_idempotent (no compositions).** For schemas built from objects, arrays and leaves — any depth —
 validating the forwarded value again accepts it and changes nothing. -/
@@ -216,6 +265,23 @@ theorem defaults_idempotent_partial (c : Ctx) (s : S) (hw : wf s = true) (v v' :
 theorem defaulted_request_validates_partial (c : Ctx) (s : S) (hw : wf s = true) (v v' : J)
     (hx : BranchShift c s v = false) (h : visit c s v = some v') : accepts c s v' = true := by
   simp [accepts, defaults_idempotent_partial c s hw v v' hx h]
+
+/-- **n validations = 1 validation (body value).**  Outside `BranchShift` — in particular for every composition-free
+schema — every further validation accepts the forwarded value and forwards it unchanged. -/
+theorem body_n_validations_partial (c : Ctx) (s : S) (hw : wf s = true) (v v' : J)
+    (hx : BranchShift c s v = false) (h : visit c s v = some v') : ∀ n, visitN c s (n + 1) v = some v' := by
+  have hfix : visit c s v' = some v' := defaults_idempotent_partial c s hw v v' hx h
+  have hn : ∀ n, visitN c s n v' = some v' := by
+    intro n
+    induction n with
+    | zero => rfl
+    | succ k ih => simp only [visitN, hfix, Option.bind_some, ih]
+  intro n
+  simp only [visitN, h, Option.bind_some, hn n]
+
+theorem body_n_validations_noComb (c : Ctx) (s : S) (hc : hasComb s = false) (hw : wf s = true) (v v' : J)
+    (h : visit c s v = some v') : ∀ n, visitN c s (n + 1) v = some v' :=
+  body_n_validations_partial c s hw v v' (by simp [BranchShift, hc]) h
 
 /-- finding #37, first half: `anyOf [A: {required [z], x default 1}, B: {z default 2}]` forwards `{}` as `{z:2}` and
     that, validated again, as `{z:2, x:1}` -/
@@ -308,24 +374,33 @@ theorem param_other_keys_untouched (skip : Bool) (p : Param) (st : Store) (k : K
 /-- **defaults appear with that default and nothing else changes (model = spec, partial).**  Full statement: for an
 accepted parameter the request afterwards is the spec's — unchanged if the parameter is present or has no default, else
 its key holds the default in the serialisation the parameter's own decoder reads.  It fails for an absent parameter
-that is described by `content` (`ContentParamDefault`, F-C13-9, witness below); outside that class it holds. -/
+that is described by `content` (`ContentParamDefault`, F-C13-9) and for an empty array default that is written as an
+empty value (`EmptyArrayWritten`, F-C13-10) — witnesses below; outside these two classes it holds. -/
 theorem param_step_eq_spec_partial (skip : Bool) (p : Param) (st : Store)
-    (hx : ContentParamDefault skip p st = false)
+    (hx : ContentParamDefault skip p st = false) (hx2 : EmptyArrayWritten skip p st = false)
     (hok : (paramStep skip p st).2 = true) : (paramStep skip p st).1 = specStep skip p st := by
   unfold paramStep at hok ⊢
   rw [stepWith_fst]
   unfold specStep
   cases ha : applied skip p (st.get p.key) with
   | some d =>
-    obtain ⟨h1, h2, h3, _⟩ := applied_some_absent skip p _ d ha
+    obtain ⟨h1, h2, h3, h4⟩ := applied_some_absent skip p _ d ha
     subst h2
     simp only [Bool.false_eq_true, ↓reduceIte, h3]
+    have hd : d ≠ .list [] ∨ encodeDefault p d = [] := by
+      by_cases e : d = .list []
+      · right
+        subst e
+        unfold EmptyArrayWritten at hx2
+        rw [h1, h3, h4] at hx2
+        simpa using hx2
+      · exact Or.inl e
     by_cases hpath : p.loc = .path
-    · have e2 : specEncode p d = [] := by rw [← encodeDefault_eq_spec]; exact encodeDefault_path p d hpath
+    · have e2 := specEncode_path p d hpath
       simp only [writeDefault, encodeDefault_path p d hpath]
       cases st.get p.key <;> simp [e2]
     · rw [decode_nil_false_absent p _ hpath h1]
-      simp only [writeDefault, encodeDefault_eq_spec]
+      simp only [writeDefault, encodeDefault_eq_spec p d hd]
   | none =>
     simp only
     cases hs : skip with
@@ -340,8 +415,7 @@ theorem param_step_eq_spec_partial (skip : Bool) (p : Param) (st : Store)
         | some d =>
           subst hs
           by_cases hpath : p.loc = .path
-          · have e2 : specEncode p d = [] := by rw [← encodeDefault_eq_spec]; exact encodeDefault_path p d hpath
-            simp [e2]
+          · simp [specEncode_path p d hpath]
           · exfalso
             cases hc : p.content with
             | true => simp [ContentParamDefault, hc, hdf, hg, hpath] at hx
@@ -489,14 +563,31 @@ theorem params_second_validation_partial (skip multi : Bool) : ∀ (ps : List Pa
     rw [paramsPhase_cons]
     simp only [t1, t2, Bool.not_true, Bool.false_and, Bool.false_eq_true, ↓reduceIte, ih, Bool.and_self]
 
+/-- **n validations = 1 validation (parameters).**  For parameters with pairwise distinct (location, name), after an
+accepted validation no further validation writes anything — whatever the later verdicts.  Full strength. -/
+theorem params_n_validations (skip multi : Bool) (ps : List Param) (st : Store)
+    (hk : keysDistinct ps = true) (hok : (paramsPhase skip multi ps st).2 = true) (n : Nat) :
+    iterN (fun x => (paramsPhase skip multi ps x).1) (n + 1) st = (paramsPhase skip multi ps st).1 :=
+  iterN_of_idem (fun x => (paramsPhase skip multi ps x).1) st (params_idempotent skip multi ps st hk hok) n
+
+/-- … and outside `DefaultReadsAsEmpty` every further validation accepts. -/
+theorem params_n_validations_accept_partial (skip multi : Bool) (ps : List Param) (st : Store)
+    (hk : keysDistinct ps = true) (hr : ∀ p ∈ ps, DefaultReadsAsEmpty skip p st = false)
+    (hok : (paramsPhase skip multi ps st).2 = true) (n : Nat) :
+    paramsPhase skip multi ps (iterN (fun x => (paramsPhase skip multi ps x).1) (n + 1) st) =
+      ((paramsPhase skip multi ps st).1, true) := by
+  rw [params_n_validations skip multi ps st hk hok n]
+  exact params_second_validation_partial skip multi ps st hk hr hok
+
 /-- **All parameters: forwarded request = spec (partial).**  The parameters of an accepted request are exactly the
 spec's — every absent parameter with a default carries it, nothing else changed — provided no parameter is in the
-class `ContentParamDefault`. -/
+classes `ContentParamDefault`, `EmptyArrayWritten`. -/
 theorem params_eq_spec_partial (skip multi : Bool) : ∀ (ps : List Param) (st : Store),
     keysDistinct ps = true → (∀ p ∈ ps, ContentParamDefault skip p st = false) →
+    (∀ p ∈ ps, EmptyArrayWritten skip p st = false) →
     (paramsPhase skip multi ps st).2 = true → (paramsPhase skip multi ps st).1 = specParams skip ps st
-  | [], st, _, _, _ => rfl
-  | p :: ps, st, hk, hx, hok => by
+  | [], st, _, _, _, _ => rfl
+  | p :: ps, st, hk, hx, hy, hok => by
     simp only [keysDistinct, Bool.and_eq_true, List.all_eq_true, bne_iff_ne, ne_eq] at hk
     obtain ⟨ok1, ok2, e⟩ := paramsPhase_ok_cons skip multi p ps st hok
     have hx' : ∀ q ∈ ps, ContentParamDefault skip q (paramStep skip p st).1 = false := by
@@ -504,8 +595,12 @@ theorem params_eq_spec_partial (skip multi : Bool) : ∀ (ps : List Param) (st :
       have := hx q (by simp [hq])
       unfold ContentParamDefault at this ⊢
       rw [paramStep_other skip p st q.key (hk.1 q hq)]; exact this
-    rw [e, params_eq_spec_partial skip multi ps _ hk.2 hx' ok2,
-      param_step_eq_spec_partial skip p st (hx p (by simp)) ok1]
+    have hy' : ∀ q ∈ ps, EmptyArrayWritten skip q (paramStep skip p st).1 = false := by
+      intro q hq
+      rw [emptyArrayWritten_congr skip q _ st (paramStep_other skip p st q.key (hk.1 q hq))]
+      exact hy q (by simp [hq])
+    rw [e, params_eq_spec_partial skip multi ps _ hk.2 hx' hy' ok2,
+      param_step_eq_spec_partial skip p st (hx p (by simp)) (hy p (by simp)) ok1]
     rfl
 
 /-- **The query cache is harmless.**  ValidateRequest decodes query parameters from `input.QueryParams` and writes
@@ -540,6 +635,15 @@ theorem witness_empty_array_default_reads_as_empty :
     DefaultReadsAsEmpty false e [] = true ∧
     paramStep false e [] = ([((.query, "e"), [.empty])], true) ∧
     paramStep false e (paramStep false e []).1 = ([((.query, "e"), [.empty])], false) := by decide
+
+/-- F-C13-10 (new, open): the same empty array default, seen against the spec: `e=` is written where the serialisation
+    of an array without members is nothing (with `explode` nothing is written: model = spec there) -/
+theorem witness_empty_array_written :
+    let e : Param := { name := "e", loc := .query, ty := .array .integer, dflt := some (.list []), required := false, allowEmpty := true, explode := false }
+    EmptyArrayWritten false e [] = true ∧ (paramStep false e []).1 = [((.query, "e"), [.empty])] ∧ specStep false e [] = [] ∧
+    EmptyArrayWritten false { e with explode := true } [] = false ∧
+    (paramStep false { e with explode := true } []).1 = specStep false { e with explode := true } [] ∧
+    EmptyArrayWritten false { e with loc := .header, name := "X-E" } [] = true := by decide
 
 /-- regression (F-C13-3, repaired): `?q=` with `q: integer, default 7` — nothing is appended any more -/
 theorem regression_empty_present :
@@ -631,15 +735,16 @@ theorem visited_keysDistinct (exq : Bool) (pp op : List Param) (h1 : keysDistinc
 
 /-- **The forwarded parameters of a whole request = spec, and a second validation changes nothing** — for path-item and
 operation parameters together, overrides and excluded query parameters included (model = spec outside
-`ContentParamDefault`; idempotence at full strength). -/
+`ContentParamDefault` and `EmptyArrayWritten`; idempotence at full strength). -/
 theorem request_params_eq_spec_and_idempotent (skip multi exq : Bool) (pp op : List Param) (st : Store)
     (h1 : keysDistinct pp = true) (h2 : keysDistinct op = true)
     (hx : ∀ p ∈ visited exq pp op, ContentParamDefault skip p st = false)
+    (hy : ∀ p ∈ visited exq pp op, EmptyArrayWritten skip p st = false)
     (hok : (paramsPhase skip multi (visited exq pp op) st).2 = true) :
     (paramsPhase skip multi (visited exq pp op) st).1 = specParams skip (visited exq pp op) st ∧
     (paramsPhase skip multi (visited exq pp op) (paramsPhase skip multi (visited exq pp op) st).1).1 =
       (paramsPhase skip multi (visited exq pp op) st).1 :=
-  ⟨params_eq_spec_partial skip multi _ st (visited_keysDistinct exq pp op h1 h2) hx hok,
+  ⟨params_eq_spec_partial skip multi _ st (visited_keysDistinct exq pp op h1 h2) hx hy hok,
    params_idempotent skip multi _ st (visited_keysDistinct exq pp op h1 h2) hok⟩
 
 /-- With ExcludeRequestQueryParams no query parameter of the request is touched. -/
@@ -703,48 +808,166 @@ theorem contentGet_parameters_ignored (declared : List String) (raw : String) (h
   have h2' : base raw ∈ declared := by simpa using h2
   unfold contentGet; simp [h0, h1', h2']
 
-/-- **The body phase = spec (partial).**  Full statement: `bodyOutcome = specOutcome` — an accepted body whose defaults
-were set is forwarded re-encoded.  It fails where the body was decoded by a decoder for which no encoder is registered
-(`NoBodyEncoder`, finding F-C13-8, witness below); outside that class it holds, for every Content-Type header (with or
-without parameters), every set of declared media types, every schema. -/
-theorem body_outcome_eq_spec_partial (c : Ctx) (declared : List (String × Option S)) (header : String)
-    (parse : Stream.Bytes → Option J) (text : Stream.Bytes → J) (enc : J → Stream.Bytes) (data : Stream.Bytes)
-    (hx : NoBodyEncoder c declared header parse text data = false) :
-    bodyOutcome c declared header parse text enc data = specOutcome c declared header parse text enc data := by
+/-! ### the two registries, tied to the source (regenerated tables BodyDecoders, BodyEncoders) -/
+
+/-- the translator could read every registration statement -/
+theorem registries_recognised :
+    Gen.bodyDecoders.all (fun r => match r with | .unrecognised _ => false | .reg _ _ => true) = true ∧
+    Gen.bodyEncoders.all (fun r => match r with | .unrecognised _ => false | .reg _ _ => true) = true := by decide
+
+/-- **`decoderOf` is the decoder registry of the source**: every registered media type is decoded by the decoder the
+model names — JSON, text, YAML — or is one of the four media types listed as outside the fragment; a media type the
+model gives a decoder is registered. -/
+theorem decoder_registry_is_code :
+    Gen.bodyDecoders.all (fun r => match r with
+      | .reg k "JSONBodyDecoder" => decoderOf k == .json
+      | .reg k "PlainBodyDecoder" => decoderOf k == .plain
+      | .reg k "YamlBodyDecoder" => decoderOf k == .yaml
+      | .reg k _ => unmodelledTypes.contains k && decoderOf k == .none
+      | .unrecognised _ => false) = true ∧
+    (jsonTypes ++ ["text/plain"] ++ yamlTypes ++ unmodelledTypes).all (fun k =>
+      Gen.bodyDecoders.any (fun r => match r with | .reg k' _ => k' == k | _ => false)) = true ∧
+    Gen.bodyDecoders.length = (jsonTypes ++ ["text/plain"] ++ yamlTypes ++ unmodelledTypes).length := by decide
+
+/-- **`hasEncoder` is the encoder registry of the source**: the registered encoders are json.Marshal under exactly
+the media types of `encoderTypes`. -/
+theorem encoder_registry_is_code :
+    Gen.bodyEncoders = encoderTypes.map (fun k => .reg k "json.Marshal") := by decide
+
+/-- **Every body the JSON decoder decodes can be written back** (repair 54b25f5) — on the registries of the source … -/
+theorem json_decoded_has_encoder_in_source :
+    Gen.bodyDecoders.all (fun r => match r with
+      | .reg k "JSONBodyDecoder" => Gen.bodyEncoders.any (fun e => match e with | .reg k' _ => k' == k | _ => false)
+      | _ => true) = true := by decide
+
+/-- … and in the model, for every media type. -/
+theorem json_decoded_has_encoder (mediaType : String) (h : decoderOf mediaType = .json) : hasEncoder mediaType = true := by
+  unfold decoderOf at h
+  unfold hasEncoder encoderTypes
+  split at h
+  · assumption
+  · split at h
+    · cases h
+    · split at h <;> cases h
+
+/-- the decoders of the source that have NO encoder: exactly YAML and the unmodelled form / multipart / csv / file
+    decoders (what is left of F-C13-8; text, csv and file bodies decode to strings and never receive defaults) -/
+theorem decoders_without_encoder :
+    (Gen.bodyDecoders.filterMap (fun r => match r with
+      | .reg k d => if Gen.bodyEncoders.any (fun e => match e with | .reg k' _ => k' == k | _ => false) then none else some (k, d)
+      | _ => none)) =
+    [("application/octet-stream", "FileBodyDecoder"), ("application/x-www-form-urlencoded", "UrlencodedBodyDecoder"),
+     ("application/x-yaml", "YamlBodyDecoder"), ("application/yaml", "YamlBodyDecoder"),
+     ("multipart/form-data", "MultipartBodyDecoder"), ("text/csv", "CsvBodyDecoder"), ("text/plain", "PlainBodyDecoder")] := by decide
+
+/-- **The body phase = spec (partial).**  Full statement: `bodyOutcome = specOutcome` — an accepted body is forwarded
+re-encoded iff a default was set in it.  It fails where the body was decoded by a decoder for which no encoder is
+registered (`NoBodyEncoder`, what is left of finding F-C13-8: YAML) and where the body is re-encoded although the value
+is unchanged (`ReencodedUnchanged`, F-C13-11: a default set only in a discarded oneOf/anyOf candidate) — witnesses
+below; outside these two classes it holds, for every Content-Type header (with or without parameters), every set of
+declared media types, every (well-formed) schema. -/
+theorem body_outcome_eq_spec_partial (c : Ctx) (declared : List (String × Option S)) (hw : declaredWf declared = true)
+    (header : String) (cd : Codec) (data : Stream.Bytes)
+    (hx : NoBodyEncoder c declared header cd data = false) (hy : ReencodedUnchanged c declared header cd data = false) :
+    bodyOutcome c declared header cd data = specOutcome c declared header cd data := by
   rw [bodyOutcome_eq, specOutcome_eq]
   rw [noBodyEncoder_eq] at hx
+  rw [reencodedUnchanged_eq] at hy
   split
   · rfl
   · cases hg : contentGet (declared.map (·.1)) header with
     | none => rfl
     | some key =>
-      simp only [hg] at hx ⊢
+      simp only [hg] at hx hy ⊢
       cases hs : schemaOf key declared with
       | none => rfl
       | some os =>
         cases os with
         | none => rfl
         | some s =>
-          simp only [hs] at hx ⊢
-          cases hd : decoded header parse text data with
+          simp only [hs] at hx hy ⊢
+          cases hd : decoded header cd data with
           | none => rfl
           | some v =>
-            simp only [hd] at hx ⊢
+            simp only [hd] at hx hy ⊢
+            have hwf := schemaOf_wf key declared s hw hs
+            rw [← visit_eq_spec c s hwf v]
             cases hv : visit c s v with
             | none => rfl
             | some v' =>
-              simp only [hv] at hx ⊢
+              simp only [hv, DiscardedCandidateTouches] at hx hy ⊢
               unfold finish finishSpec
-              cases h1 : c.setDefaults <;> cases h2 : J.beq v' v <;> cases h3 : hasEncoder (base header) <;>
-                simp_all
+              cases h1 : c.setDefaults with
+              | false => simp
+              | true =>
+                simp only [h1, Bool.true_and] at hx hy ⊢
+                cases ht : touched c s v with
+                | false =>
+                  have e := untouched_unchanged c s hwf v v' hv ht
+                  subst e
+                  simp [J.beq_refl]
+                | true =>
+                  simp only [ht, Bool.true_and, Bool.and_true, Bool.not_eq_false'] at hx hy
+                  simp [hx, hy]
+
+/-- A text/plain body is never rewritten: it decodes to a string, and a string is forwarded as it is. -/
+theorem plain_body_never_rewritten (c : Ctx) (declared : List (String × Option S)) (header : String) (cd : Codec)
+    (data : Stream.Bytes) (hp : decoderOf (base header) = .plain) :
+    bodyOutcome c declared header cd data = .accept ∨ bodyOutcome c declared header cd data = .reject := by
+  rw [bodyOutcome_eq]
+  split
+  · exact Or.inl rfl
+  · split
+    · exact Or.inr rfl
+    · split
+      · simp only [decoded, hp]
+        cases hv : visit c _ (.str (cd.text data)) with
+        | none => exact Or.inr rfl
+        | some v' =>
+          left
+          simp [finish, touched_str]
+      · exact Or.inl rfl
+
+/-- **The body phase = spec for every body the JSON or the text decoder decodes, and for every media type without a
+decoder**: F-C13-8 is repaired for the "+json" family (commit 54b25f5); only `ReencodedUnchanged` is left. -/
+theorem body_outcome_eq_spec_json (c : Ctx) (declared : List (String × Option S)) (hw : declaredWf declared = true)
+    (header : String) (cd : Codec) (data : Stream.Bytes) (hj : decoderOf (base header) ≠ .yaml)
+    (hy : ReencodedUnchanged c declared header cd data = false) :
+    bodyOutcome c declared header cd data = specOutcome c declared header cd data := by
+  apply body_outcome_eq_spec_partial c declared hw header cd data _ hy
+  rw [noBodyEncoder_eq]
+  cases hd : decoderOf (base header) with
+  | yaml => exact absurd hd hj
+  | json => simp [json_decoded_has_encoder _ hd]
+  | none =>
+    cases hg : contentGet (declared.map (·.1)) header with
+    | none => simp
+    | some key =>
+      simp only
+      cases hs : schemaOf key declared with
+      | none => simp
+      | some os => cases os <;> simp [decoded, hd]
+  | plain =>
+    cases hg : contentGet (declared.map (·.1)) header with
+    | none => simp
+    | some key =>
+      simp only
+      cases hs : schemaOf key declared with
+      | none => simp
+      | some os =>
+        cases os with
+        | none => simp
+        | some s =>
+          simp only [decoded, hd]
+          cases hv : visit c s (.str (cd.text data)) with
+          | none => simp
+          | some v' => simp [touched_str]
 
 /-- Nothing is rewritten when default-setting is skipped. -/
 theorem rewrite_only_with_defaults_on (c : Ctx) (hc : c.setDefaults = false) (declared : List (String × Option S))
-    (header : String) (parse : Stream.Bytes → Option J) (text : Stream.Bytes → J) (enc : J → Stream.Bytes)
-    (data : Stream.Bytes) : (∀ nd, bodyOutcome c declared header parse text enc data ≠ .rewrite nd) ∧
-      bodyOutcome c declared header parse text enc data ≠ .rewriteFails := by
-  have key : bodyOutcome c declared header parse text enc data = .accept ∨
-      bodyOutcome c declared header parse text enc data = .reject := by
+    (header : String) (cd : Codec) (data : Stream.Bytes) :
+    (∀ nd, bodyOutcome c declared header cd data ≠ .rewrite nd) ∧ bodyOutcome c declared header cd data ≠ .rewriteFails := by
+  have key : bodyOutcome c declared header cd data = .accept ∨ bodyOutcome c declared header cd data = .reject := by
     rw [bodyOutcome_eq]
     split
     · simp
@@ -763,23 +986,20 @@ theorem rewrite_only_with_defaults_on (c : Ctx) (hc : c.setDefaults = false) (de
 outcome, any Content-Type, any declared content, any schema, valid or invalid body — the next handler reads exactly
 the bytes that were received. -/
 theorem skip_defaults_body_identity (cfg : Stream.Cfg) (c : Ctx) (hc : c.setDefaults = false)
-    (declared : List (String × Option S)) (header : String)
-    (parse : Stream.Bytes → Option J) (text : Stream.Bytes → J) (enc : J → Stream.Bytes)
+    (declared : List (String × Option S)) (header : String) (cd : Codec)
     (r : Stream.Req) (data : Stream.Bytes) (h : Stream.Coherent r data) :
-    Stream.Readable (Stream.validateStream cfg (bodyOutcome c declared header parse text enc) r).1 data :=
+    Stream.Readable (Stream.validateStream cfg (bodyOutcome c declared header cd) r).1 data :=
   skip_defaults_stream_identity cfg _ r data h
-    (fun d nd => (rewrite_only_with_defaults_on c hc declared header parse text enc d).1 nd)
-    (fun d => (rewrite_only_with_defaults_on c hc declared header parse text enc d).2)
+    (fun d nd => (rewrite_only_with_defaults_on c hc declared header cd d).1 nd)
 
 /-- **What is forwarded.**  If the body is rewritten, the new bytes are the encoding of what the value layer makes of
-the decoded body under the schema of the media type that the header selects — and the header's media type is
-application/json. -/
-theorem rewrite_is_encoded_visit (c : Ctx) (declared : List (String × Option S)) (header : String)
-    (parse : Stream.Bytes → Option J) (text : Stream.Bytes → J) (enc : J → Stream.Bytes) (data nd : Stream.Bytes)
-    (h : bodyOutcome c declared header parse text enc data = .rewrite nd) :
+the decoded body under the schema of the media type that the header selects — and the header's media type is one of
+the six of the JSON family. -/
+theorem rewrite_is_encoded_visit (c : Ctx) (declared : List (String × Option S)) (header : String) (cd : Codec)
+    (data nd : Stream.Bytes) (h : bodyOutcome c declared header cd data = .rewrite nd) :
     ∃ key s v v', contentGet (declared.map (·.1)) header = some key ∧ schemaOf key declared = some (some s) ∧
-      decoded header parse text data = some v ∧ visit c s v = some v' ∧ nd = enc v' ∧ c.setDefaults = true ∧
-      base header = "application/json" := by
+      decoded header cd data = some v ∧ visit c s v = some v' ∧ nd = cd.enc v' ∧ c.setDefaults = true ∧
+      jsonTypes.contains (base header) = true := by
   rw [bodyOutcome_eq] at h
   split at h
   · cases h
@@ -794,7 +1014,7 @@ theorem rewrite_is_encoded_visit (c : Ctx) (declared : List (String × Option S)
         | none => simp [hs] at h
         | some s =>
           simp only [hs] at h
-          cases hd : decoded header parse text data with
+          cases hd : decoded header cd data with
           | none => simp [hd] at h
           | some v =>
             simp only [hd] at h
@@ -809,15 +1029,55 @@ theorem rewrite_is_encoded_visit (c : Ctx) (declared : List (String × Option S)
                 · rename_i henc
                   cases h
                   simp only [Bool.and_eq_true] at hcond
-                  exact ⟨key, s, v, v', rfl, hs, rfl, hv, rfl, hcond.1, by simpa [hasEncoder] using henc⟩
+                  exact ⟨key, s, v, v', rfl, hs, rfl, hv, rfl, hcond.1, henc⟩
                 · cases h
               · cases h
 
+/-- **The rewritten body is accepted by the next validation, and nothing new is written**: it is forwarded as it is, or
+re-encoded to the very same bytes — outside `BranchShift`, given that decoding what the encoder wrote gives the value
+back (trusted: encoding/json). -/
+theorem rewritten_body_is_accepted (c : Ctx) (declared : List (String × Option S)) (hw : declaredWf declared = true)
+    (header : String) (cd : Codec) (data nd : Stream.Bytes)
+    (h : bodyOutcome c declared header cd data = .rewrite nd)
+    (hrt : ∀ v, decoded header cd (cd.enc v) = some v)
+    (hx : ∀ key s v, contentGet (declared.map (·.1)) header = some key → schemaOf key declared = some (some s) →
+      decoded header cd data = some v → BranchShift c s v = false) :
+    bodyOutcome c declared header cd nd = .accept ∨ bodyOutcome c declared header cd nd = .rewrite nd := by
+  obtain ⟨key, s, v, v', hg, hs, hd, hv, rfl, _, henc⟩ := rewrite_is_encoded_visit c declared header cd data nd h
+  have hfix : visit c s v' = some v' :=
+    defaults_idempotent_partial c s (schemaOf_wf key declared s hw hs) v v' (hx key s v hg hs hd) hv
+  rw [bodyOutcome_eq]
+  have hne : declared.isEmpty = false := by
+    cases declared with
+    | nil => simp [schemaOf] at hs
+    | cons _ _ => rfl
+  simp only [hne, Bool.false_eq_true, ↓reduceIte, hg, hs, hrt v', hfix, finish]
+  have he : hasEncoder (base header) = true := henc
+  cases c.setDefaults && touched c s v' <;> simp [he]
+
+/-- **n validations = 1 validation (whole body path).**  Stream and value layer together: outside `BranchShift`,
+however often the request is validated again — any security outcome, any Content-Type, any declared content — Body,
+GetBody and ContentLength stay as the first validation left them, and every validation returns the first verdict. -/
+theorem body_path_n_validations (cfg : Stream.Cfg) (c : Ctx) (declared : List (String × Option S))
+    (hw : declaredWf declared = true) (header : String) (cd : Codec) (r : Stream.Req) (data : Stream.Bytes)
+    (h : Stream.Coherent r data)
+    (hrt : ∀ v, decoded header cd (cd.enc v) = some v) (hne : ∀ v, cd.enc v ≠ [])
+    (hx : ∀ key s v, contentGet (declared.map (·.1)) header = some key → schemaOf key declared = some (some s) →
+      decoded header cd data = some v → BranchShift c s v = false) (n : Nat) :
+    iterN (fun x => (Stream.validateStream cfg (bodyOutcome c declared header cd) x).1) (n + 1) r =
+      (Stream.validateStream cfg (bodyOutcome c declared header cd) r).1 ∧
+    (Stream.validateStream cfg (bodyOutcome c declared header cd)
+      (iterN (fun x => (Stream.validateStream cfg (bodyOutcome c declared header cd) x).1) (n + 1) r)).2 =
+      (Stream.validateStream cfg (bodyOutcome c declared header cd) r).2 := by
+  apply stream_n_validations cfg _ r data h
+  intro nd hnd
+  obtain ⟨_, _, _, v', _, _, _, _, e, _, _⟩ := rewrite_is_encoded_visit c declared header cd data nd hnd
+  exact ⟨by rw [e]; exact hne v', rewritten_body_is_accepted c declared hw header cd data nd hnd hrt hx⟩
+
 /-- The rewrite fails exactly in the class `NoBodyEncoder`. -/
-theorem rewriteFails_iff_noBodyEncoder (c : Ctx) (declared : List (String × Option S)) (header : String)
-    (parse : Stream.Bytes → Option J) (text : Stream.Bytes → J) (enc : J → Stream.Bytes) (data : Stream.Bytes) :
-    bodyOutcome c declared header parse text enc data = .rewriteFails ↔
-      NoBodyEncoder c declared header parse text data = true := by
+theorem rewriteFails_iff_noBodyEncoder (c : Ctx) (declared : List (String × Option S)) (header : String) (cd : Codec)
+    (data : Stream.Bytes) :
+    bodyOutcome c declared header cd data = .rewriteFails ↔ NoBodyEncoder c declared header cd data = true := by
   rw [bodyOutcome_eq, noBodyEncoder_eq]
   cases hd : declared with
   | nil => simp [contentGet]
@@ -834,7 +1094,7 @@ theorem rewriteFails_iff_noBodyEncoder (c : Ctx) (declared : List (String × Opt
         | none => simp
         | some s =>
           simp only
-          cases hdv : decoded header parse text data with
+          cases hdv : decoded header cd data with
           | none => simp
           | some v =>
             simp only
@@ -843,17 +1103,70 @@ theorem rewriteFails_iff_noBodyEncoder (c : Ctx) (declared : List (String × Opt
             | some v' =>
               simp only
               unfold finish
-              cases h1 : c.setDefaults <;> cases h2 : J.beq v' v <;> cases h3 : hasEncoder (base header) <;> simp
+              cases h1 : c.setDefaults <;> cases h2 : touched c s v <;> cases h3 : hasEncoder (base header) <;> simp
 
-/-- F-C13-8 (new): `Content-Type: application/problem+json`, a property with a default is absent: the valid request is
-    rejected ("rewriting failed") where the spec forwards it with the default -/
+/-- In the fragment the rewrite can only fail for a YAML body. -/
+theorem rewriteFails_only_yaml (c : Ctx) (declared : List (String × Option S)) (header : String) (cd : Codec)
+    (data : Stream.Bytes) (h : bodyOutcome c declared header cd data = .rewriteFails) : decoderOf (base header) = .yaml := by
+  cases hd : decoderOf (base header) with
+  | yaml => rfl
+  | json =>
+    have := (rewriteFails_iff_noBodyEncoder c declared header cd data).mp h
+    rw [noBodyEncoder_eq] at this
+    simp [json_decoded_has_encoder _ hd] at this
+  | plain => rcases plain_body_never_rewritten c declared header cd data hd with k | k <;> rw [k] at h <;> cases h
+  | none =>
+    exfalso
+    rw [bodyOutcome_eq] at h
+    split at h
+    · cases h
+    · split at h
+      · cases h
+      · split at h
+        · simp [decoded, hd] at h
+        · cases h
+
+/-- F-C13-8 (what is left open): `Content-Type: application/yaml`, a property with a default is absent: the valid
+    request is rejected ("rewriting failed") where the spec forwards it with the default -/
 theorem witness_no_body_encoder :
     let s : S := .obj {} [] [("d", .leaf { dflt := some (.num 7) } .number)] true
+    let declared : List (String × Option S) := [("application/yaml", some s)]
+    let cd : Codec := { parse := fun _ => none, yaml := fun _ => some (.obj []), text := fun _ => "", enc := fun _ => [1] }
+    NoBodyEncoder {} declared "application/yaml" cd [0] = true ∧
+    bodyOutcome {} declared "application/yaml" cd [0] = .rewriteFails ∧
+    specOutcome {} declared "application/yaml" cd [0] = .rewrite [1] := by
+  decide
+
+/-- F-C13-11 (new, open): `anyOf [A: {required [q], x default 1}, B: {z: number}]` and the body `{"z":1}`: no default
+    applies and the value is forwarded as it is — but A's trial run wrote `x` into its private copy before rejecting it,
+    and that ran the `DefaultsSet` callback: a JSON body is re-encoded (model `rewrite`, spec `accept`: other bytes, same
+    value), a YAML body is rejected ("rewriting failed") although it is valid and needs no default -/
+theorem witness_discarded_candidate_touches :
+    let A : S := .obj {} ["q"] [("x", .leaf { dflt := some (.num 1) } .number)] true
+    let B : S := .obj {} [] [("z", .leaf {} .number)] true
+    let s : S := .comb {} .anyOf [A, B]
+    let v : J := .obj [("z", .num 1)]
+    let cd : Codec := { parse := fun _ => some v, yaml := fun _ => some v, text := fun _ => "", enc := fun _ => [1] }
+    visit {} s v = some v ∧ touched {} s v = true ∧ DiscardedCandidateTouches {} s v = true ∧
+    ReencodedUnchanged {} [("application/json", some s)] "application/json" cd [0] = true ∧
+    bodyOutcome {} [("application/json", some s)] "application/json" cd [0] = .rewrite [1] ∧
+    specOutcome {} [("application/json", some s)] "application/json" cd [0] = .accept ∧
+    bodyOutcome {} [("application/yaml", some s)] "application/yaml" cd [0] = .rewriteFails ∧
+    specOutcome {} [("application/yaml", some s)] "application/yaml" cd [0] = .accept ∧
+    touched {} B v = false := by
+  refine ⟨by rfl, by rfl, by rfl, by decide, by decide, by decide, by decide, by decide, by rfl⟩
+
+/-- regression (F-C13-8, first face, repaired by 54b25f5): `Content-Type: application/problem+json`, a property with a
+    default is absent: the body is forwarded re-encoded with the default — model = spec (before the repair the model
+    answered `rewriteFails`) -/
+theorem regression_json_family_encoder :
+    let s : S := .obj {} [] [("d", .leaf { dflt := some (.num 7) } .number)] true
     let declared : List (String × Option S) := [("application/problem+json", some s)]
-    let parse : Stream.Bytes → Option J := fun _ => some (.obj [])
-    NoBodyEncoder {} declared "application/problem+json" parse (fun _ => .null) [0] = true ∧
-    bodyOutcome {} declared "application/problem+json" parse (fun _ => .null) (fun _ => [1]) [0] = .rewriteFails ∧
-    specOutcome {} declared "application/problem+json" parse (fun _ => .null) (fun _ => [1]) [0] = .rewrite [1] := by
+    let cd : Codec := { parse := fun _ => some (.obj []), yaml := fun _ => none, text := fun _ => "", enc := fun _ => [1] }
+    NoBodyEncoder {} declared "application/problem+json" cd [0] = false ∧
+    bodyOutcome {} declared "application/problem+json" cd [0] = .rewrite [1] ∧
+    specOutcome {} declared "application/problem+json" cd [0] = .rewrite [1] ∧
+    jsonTypes.all hasEncoder = true := by
   decide
 
 /-- non-vacuity (the seeded-defect shape): `application/json; charset=utf-8` against a declared `application/json`:
@@ -861,12 +1174,68 @@ theorem witness_no_body_encoder :
 example :
     let s : S := .obj {} [] [("d", .leaf { dflt := some (.num 7) } .number)] true
     let declared : List (String × Option S) := [("application/json", some s)]
-    NoBodyEncoder {} declared "application/json; charset=utf-8" (fun _ => some (.obj [])) (fun _ => .null) [0] = false ∧
-    bodyOutcome {} declared "application/json; charset=utf-8" (fun _ => some (.obj [])) (fun _ => .null) (fun _ => [1]) [0] = .rewrite [1] ∧
-    bodyOutcome {} declared "application/json ; charset=utf-8" (fun _ => some (.obj [])) (fun _ => .null) (fun _ => [1]) [0] = .reject ∧
-    bodyOutcome {} [("application/*", some s)] "application/hal+json" (fun _ => some (.obj [("d", .num 1)])) (fun _ => .null) (fun _ => [1]) [0] = .accept := by
+    let cd : Codec := { parse := fun _ => some (.obj []), yaml := fun _ => none, text := fun _ => "", enc := fun _ => [1] }
+    let cd1 : Codec := { cd with parse := fun _ => some (.obj [("d", .num 1)]) }
+    declaredWf declared = true ∧
+    NoBodyEncoder {} declared "application/json; charset=utf-8" cd [0] = false ∧
+    bodyOutcome {} declared "application/json; charset=utf-8" cd [0] = .rewrite [1] ∧
+    bodyOutcome {} declared "application/json ; charset=utf-8" cd [0] = .reject ∧
+    bodyOutcome {} [("application/*", some s)] "application/hal+json" cd1 [0] = .accept ∧
+    bodyOutcome {} [("application/*", some s)] "application/hal+json; v=1" cd [0] = .rewrite [1] := by
   decide
 
 end MediaPart
+
+/-! ## Part 5 — every `return` of the five functions the request passes through (regenerated table C13BodyFlow)
+
+The stream model of Part 1 was written by reading the code; this part makes "the body is put back on every path" an
+obligation over the code's own control-flow skeleton, regenerated on every run: `Flow.Exec` are all paths of the
+skeleton, `Flow.accepts` is an abstract interpreter, `Flow.accepts_sound` (Lemmas/C13Flow.lean) its soundness for all
+paths — and `decide` runs it on the table. -/
+section FlowPart
+open Flow Gen
+
+/-- the translator could read every statement that touches the body stream -/
+theorem flow_recognised :
+    c13BodyFlow.map (·.1) = ["ValidateRequest", "ValidateParameter", "ValidateRequestBody", "ValidateSecurityRequirements", "validateSecurityRequirement"] ∧
+    c13BodyFlow.all (fun f => countL isUnrecognised f.2 == 0) = true := by decide +kernel
+
+/-- the interpreter accepts each of the five functions -/
+theorem flow_accepted : c13BodyFlow.all (fun f => accepts f.2) = true := by decide +kernel
+
+/-- **body_readable_after, on every path of the code's skeleton.**  For each of the five functions, entered with or
+without a request body: every path — whichever way the conditions fall, however often the loops run, whether or not a
+callback reads the body — ends in a `return` with the body in place or with a deferred restore registered; every
+authentication callback and every call of another of the five functions starts with the whole body in place; nothing
+unrecognised is executed. -/
+theorem every_return_protected (f : String × List FlowStmt) (hf : f ∈ c13BodyFlow) (s : FSt) (hs : s ∈ entryStates)
+    (o : Out) (h : Exec f.2 s o) : Protected o :=
+  accepts_sound f.2 (List.all_eq_true.mp flow_accepted f hf) s hs o h
+
+/-- **The shape the stream model relies on** (the "restore sites" of Part 1, now counted in the source): per function
+(reads of the body, restore blocks, default-rewrite blocks, deferred restores, callback calls): ValidateRequestBody reads
+once, restores once and installs the rewrite once; validateSecurityRequirement reads once, registers one deferred
+restore, restores before its one callback call; the other three functions never touch the stream themselves. -/
+theorem flow_shape_is_model :
+    c13BodyFlow.map (fun f => (f.1, (census f.2).take 5)) =
+      [("ValidateRequest", [0, 0, 0, 0, 0]), ("ValidateParameter", [0, 0, 0, 0, 0]),
+       ("ValidateRequestBody", [1, 1, 1, 0, 0]), ("ValidateSecurityRequirements", [0, 0, 0, 0, 0]),
+       ("validateSecurityRequirement", [1, 1, 0, 1, 1])] := by decide +kernel
+
+/-- non-vacuity of the interpreter and of the semantics: a `return` between the read and the restore (no deferred
+    restore) is rejected, and there is a path that reaches it with the body consumed; with the deferred restore it is
+    accepted -/
+example :
+    accepts [.ifBody 1 [.read 2 [.ret 3], .ifElse 4 [.ret 5] [], .restore 6] [], .ret 7] = false ∧
+    accepts [.ifBody 1 [.read 2 [.ret 3], .deferRestore 4, .ifElse 4 [.ret 5] []] [], .ret 7] = true ∧
+    accepts [.ifBody 1 [.read 2 [.ret 3], .restore 6] [], .loop 7 [.callback 8, .ifElse 9 [.ret 10] []], .ret 11] = false ∧
+    Exec [.ifBody 1 [.read 2 [.ret 3], .ifElse 4 [.ret 5] [], .restore 6] [], .ret 7] ⟨true, false, false, false⟩
+      (.ret 5 ⟨true, true, false, true⟩) := by
+  refine ⟨by decide +kernel, by decide +kernel, by decide +kernel, ?_⟩
+  refine Exec.branchStop _ _ _ [.read 2 [.ret 3], .ifElse 4 [.ret 5] [], .restore 6] _ (by simp [branches]) ?_ rfl
+  refine Exec.read _ _ _ _ _ ?_
+  exact Exec.branchStop _ _ _ [.ret 5] _ (by simp [branches]) (Exec.ret _ _ _) rfl
+
+end FlowPart
 
 end KinModel.C13
